@@ -231,25 +231,51 @@ Fixpoint list_eqb {A} (eqb : A -> A -> bool) (a b : list A) : bool :=
   | _, _ => false
   end.
 
-(* one observation point: the variables vs (terms, canonically numbered), the attribute slots at (cell contents),
-   the blackboard keys ks (visible value) *)
-Record obs := { o_vars : list oterm; o_atts : list cell; o_bb : list cell }.
-Definition observe (s : state) (vs ats ks : list nat) : obs :=
-  {| o_vars := canon_list (map (resolve 8 s) vs) [];
-     o_atts := map (fun a => nth a (heap s) None) ats;
+(* one observation point: the variables vs (terms, canonically numbered), the attributed variables ats (variable cell,
+   attribute slot), the blackboard keys ks (visible value) *)
+Inductive oatt := ABound | ANone | AVal (n : nat).
+Definition obs_att (s : state) (p : nat * nat) : oatt :=
+  match nth (root s (fst p)) (heap s) None with
+  | Some _ => ABound
+  | None => match nth (snd p) (heap s) None with Some (VInt n) => AVal n | _ => ANone end
+  end.
+Definition oatt_eqb (a b : oatt) : bool :=
+  match a, b with
+  | ABound, ABound => true
+  | ANone, ANone => true
+  | AVal x, AVal y => x =? y
+  | _, _ => false
+  end.
+Record obs := { o_vars : list oterm; o_atts : list oatt; o_bb : list cell }.
+Definition observe (s : state) (vs : list nat) (ats : list (nat * nat)) (ks : list nat) : obs :=
+  {| o_vars := canon_list (map (resolve 40 s) vs) [];
+     o_atts := map (obs_att s) ats;
      o_bb := map (visible s) ks |}.
 Definition obs_eqb (a b : obs) : bool :=
-  list_eqb oterm_eqb (o_vars a) (o_vars b) && list_eqb cell_eqb (o_atts a) (o_atts b) && list_eqb cell_eqb (o_bb a) (o_bb b).
+  list_eqb oterm_eqb (o_vars a) (o_vars b) && list_eqb oatt_eqb (o_atts a) (o_atts b) && list_eqb cell_eqb (o_bb a) (o_bb b).
 
-(* a scenario: segments of operations, an observation after each *)
-Fixpoint observations (s : state) (segs : list (list op)) (vs ats ks : list nat) : list obs :=
+(* a scenario: segments of operations, an observation after each; the observation reads every key with bb_get,
+   which is itself an operation (it caches the ball in the backtrackable slot) *)
+Fixpoint observations (s : state) (segs : list (list op)) (vs : list nat) (ats : list (nat * nat)) (ks : list nat) : list obs :=
   match segs with
   | [] => []
-  | ops :: r => let s' := run ops s in observe s' vs ats ks :: observations s' r vs ats ks
+  | ops :: r => let s' := run ops s in
+                observe s' vs ats ks :: observations (run (map BbGet ks) s') r vs ats ks
   end.
 
 Definition init (nkeys : nat) : state :=
   {| heap := []; loc := repeat None nkeys; ball := repeat None nkeys; trail := []; stack := []; hb := 0 |}.
 
-Definition check_case (nkeys : nat) (segs : list (list op)) (vs ats ks : list nat) (impl : list obs) : bool :=
-  list_eqb obs_eqb (observations (init nkeys) segs vs ats ks) impl.
+(* the implementation's observations through the compiled-clause path and through the query (meta-call) path *)
+Definition check_case (nkeys : nat) (segs : list (list op)) (vs : list nat) (ats : list (nat * nat)) (ks : list nat)
+                      (impl1 impl2 : list obs) : bool :=
+  let m := observations (init nkeys) segs vs ats ks in
+  list_eqb obs_eqb m impl1 && list_eqb obs_eqb m impl2.
+
+(* ---------- data of the non-vacuity examples in Props.v *)
+Definition ex_pre : list op := [NewVar; NewVar; NewVar; Bind 2 (VInt 7); BbBPut 0 (VInt 1)].
+Definition ex_ops : list op :=
+  [NewVar; Bind 0 (VStr 1 3); Unify 1 3; SetVal 1 (Some (VInt 5)); SetVal 1 (Some (VInt 6));
+   Try; Bind 3 (VInt 9); Cut; BbBPut 0 (VInt 2); BbPut 1 (VInt 3);
+   Try; NewVar; Retry; Bind 1 (VInt 4); Trust].
+Definition wrong_cond (a h : nat) : bool := a <? h - 1.
